@@ -32,8 +32,8 @@ ASSUME = ['option errors (exit 1 from utils.error) are not generated: every path
           'a CPU-budget overrun counts only when it repeats alone with four times the budget',
           'operating-system limits (file name length) are input-independent environment limits only up to 200-character identifiers, which the workload does not exceed']
 DECIDING = {
-    'quick': {'runs': 250, 'files_accounted': 1500, 'artefact_checks': 250, 'unparsable_files': 60, 'neighbour_differentials': 40, 'audit_events': 2000, 'wild_trees': 40, 'directed_trees': 40, 'corpus_trees': 8},
-    'thorough': {'runs': 4000, 'files_accounted': 30000, 'artefact_checks': 4000, 'unparsable_files': 1500, 'neighbour_differentials': 800, 'audit_events': 50000, 'wild_trees': 1000, 'directed_trees': 45, 'corpus_trees': 150},
+    'quick': {'runs': 250, 'files_accounted': 1500, 'artefact_checks': 250, 'unparsable_files': 60, 'quoted_message_files_checked': 60, 'neighbour_differentials': 40, 'audit_events': 2000, 'wild_trees': 40, 'directed_trees': 40, 'corpus_trees': 8},
+    'thorough': {'runs': 4000, 'files_accounted': 30000, 'artefact_checks': 4000, 'unparsable_files': 1500, 'quoted_message_files_checked': 2000, 'neighbour_differentials': 800, 'audit_events': 50000, 'wild_trees': 1000, 'directed_trees': 45, 'corpus_trees': 150},
 }
 CPU_S = 900
 HANG_IS_VIOLATION = True
@@ -284,7 +284,7 @@ def judge(res: core.Res, label: str, paths: List[str], fmt: str, o: Outcome, w: 
                 res.v(f'C01:module-not-processed:{mod.state.name}', f'{label}: module {mod.fullName()} ({f}) ended in state {mod.state.name} without a message naming the file', **w)
     if system.unprocessed_modules:
         res.v('C01:unprocessed-left', f'{label}: {len(system.unprocessed_modules)} modules left unprocessed', **w)
-    # located problem messages name a file of the tree
+    # located problem messages name a file of the tree -- and, for problems of a docstring, a line of a docstring of that file
     roots_real = [os.path.realpath(p) for p in paths]
     for m in log:
         if m[2] < 0:
@@ -294,6 +294,17 @@ def judge(res: core.Res, label: str, paths: List[str], fmt: str, o: Outcome, w: 
                 rp = os.path.realpath(loc[0])
                 if not any(rp == rr or rp.startswith(rr.rstrip(os.sep) + os.sep) for rr in roots_real):
                     res.v('C01:message-names-foreign-file', f'{label}: message names {loc[0]!r}, not a file of the tree: {m[1][:150]}', **w)
+                else:
+                    # a message that quotes a piece of the docstring at fault names the file in which that piece is written
+                    mm = _QUOTED.match(loc[2])
+                    rf = _re.search(r'resolved from "([^"]+)"', loc[2])
+                    token = rf.group(1) if rf else (mm.group(2) if mm else '')
+                    if mm and _PLAIN_TOKEN.match(token):
+                        text = _file_text(rp)
+                        if text is not None:
+                            res.c('quoted_message_files_checked')
+                            if token not in text:
+                                res.v('C01:message-names-wrong-file', f'{label}: {m[1][:200]!r}: the file named does not contain {token!r}', **w)
     # artefacts
     res.c('artefact_checks')
     missing = [a for a in REQUIRED if a not in o.files]
@@ -320,6 +331,26 @@ def judge(res: core.Res, label: str, paths: List[str], fmt: str, o: Outcome, w: 
     res.c('audit_events', _audit['events'])
     _audit['events'] = 0
     return True
+
+
+import re as _re
+_QUOTED = _re.compile(r'^(Cannot find link target for|Unknown field|Documented parameter|Parameter) ["\']([^"\']+)["\']')
+_PLAIN_TOKEN = _re.compile(r'^[A-Za-z_][A-Za-z0-9_.]{3,}$')
+_file_text_cache: Dict[str, Optional[str]] = {}
+
+
+def _file_text(path: str) -> Optional[str]:
+    if path not in _file_text_cache:
+        if len(_file_text_cache) > 3000:
+            _file_text_cache.clear()
+        try:
+            with open(path, 'rb') as f:
+                data = f.read()
+            # escapes in string literals can spell a name without containing it: such files are not judged
+            _file_text_cache[path] = None if (b'\\x' in data or b'\\u' in data or b'\\N' in data or b'\\1' in data or b'\\0' in data) else data.decode('utf-8', 'replace')
+        except OSError:
+            _file_text_cache[path] = None
+    return _file_text_cache[path]
 
 
 def _summary(system: Any, exclude_prefixes: List[str]) -> Dict[str, str]:
@@ -407,6 +438,10 @@ def _directed() -> Dict[str, Dict[str, Any]]:
                                    'other_root.py': 'from pkg import *\nimport pkg\n__all__ = ["pkg", "sub"]\nfrom pkg import sub\n'}, roots=['pkg', 'other_root.py'])
     add('reexport-modules', {'pkg/__init__.py': 'from . import a, b\nfrom .sub import deep\nfrom .a import b as c\n__all__ = ["a", "b", "deep", "c", "pkg", "__init__"]\n', 'pkg/a.py': 'from . import b\nfrom .b import a\n__all__ = ["b", "a"]\n',
                               'pkg/b.py': 'from . import a\nfrom pkg import sub\n__all__ = ["a", "sub"]\n', 'pkg/sub/__init__.py': 'from .. import a as deep\n__all__ = ["deep"]\n', 'pkg/sub/deep.py': 'from ... import pkg\n', 'pkg/good.py': GOOD})
+    impl = ''.join(f'class Moved{i}:\n    """Doc. See L{{nosuch_target_{i}}}.\n\n    @unknownfield{i}: text\n    """\n    def meth(self, a):\n        """See L{{nosuch_member_{i}}}.\n\n        @param nosuchparam_{i}: x\n        """\n'
+                   f'def moved_func{i}(a):\n    """`nosuch_func_target_{i}`\n\n    :param nosuchparam_f{i}: x\n    """\n' for i in range(6))
+    add('reexport-with-docstring-problems', {'pkg/__init__.py': 'from ._impl import *\nfrom ._impl import Moved0 as Renamed\n__all__ = ' + repr([f'Moved{i}' for i in range(1, 6)] + [f'moved_func{i}' for i in range(6)] + ['Renamed']) + '\n',
+                                              'pkg/_impl.py': impl, 'pkg/user.py': 'from pkg import Moved1\nfrom pkg._impl import Moved2\nclass U(Moved1, Moved2):\n    def meth(self, a): pass\n', 'pkg/good.py': GOOD})
     add('same-path-twice', {'pkg/__init__.py': '', 'pkg/good.py': GOOD}, roots=['pkg', 'pkg'])
     add('several-roots', {'pkg/__init__.py': '', 'pkg/good.py': GOOD, 'other/__init__.py': 'from pkg.good import Good\n', 'single.py': 'import pkg\nclass S(pkg.good.Good): pass\n'}, roots=['pkg', 'other', 'single.py'])
     add('roots-same-name', {'a/pkg/__init__.py': 'x = 1\n', 'b/pkg/__init__.py': 'y = 2\n', 'b/pkg/good.py': GOOD}, roots=['a/pkg', 'b/pkg'])
